@@ -484,15 +484,12 @@ Proof.
   rewrite H. reflexivity.
 Qed.
 
-Section Dependent.
+Lemma Forall2_length_eq {A B} (R : A -> B -> Prop) l l' : Forall2 R l l' -> length l = length l'.
+Proof. induction 1; simpl; congruence. Qed.
 
-Variable point : Type.
-Variable key : Type.
+Section Address.
+
 Variable cs : bytes -> list bool.
-Variable enc_pt : point -> bytes.
-Variable dec_pt : bytes -> option point.
-Variable enc_key : key -> bytes.
-Variable dec_key : bytes -> option key.
 
 Lemma apply_case_variant m : forall h, Forall2 case_variant h (apply_case m h).
 Proof.
@@ -502,9 +499,6 @@ Proof.
     destruct u; simpl; [|left; reflexivity].
     destruct (N.ltb_spec 57 c); [right; split; [assumption|reflexivity]|left; reflexivity].
 Qed.
-
-Lemma Forall2_length_eq {A B} (R : A -> B -> Prop) l l' : Forall2 R l l' -> length l = length l'.
-Proof. induction 1; simpl; congruence. Qed.
 
 Lemma address_hex_body a :
   address_hex cs a = 48 :: 120 :: apply_case (cs a) (hex_encode a).
@@ -584,12 +578,17 @@ Proof.
       apply address_hex_no_comma. eapply Forall_forall in H; eauto.
 Qed.
 
+End Address.
+
 (* the laws assumed of the dependencies' codecs *)
+Section Gammas.
+
+Variable point : Type.
+Variable enc_pt : point -> bytes.
+Variable dec_pt : bytes -> option point.
 Hypothesis pt_roundtrip : forall p, dec_pt (enc_pt p) = Some p.
 Hypothesis pt_length : forall p, length (enc_pt p) = pt_len.
 Hypothesis pt_bytes : forall p, bytes_ok (enc_pt p).
-Hypothesis key_roundtrip : forall k, dec_key (enc_key k) = Some k.
-Hypothesis key_bytes : forall k, bytes_ok (enc_key k).
 
 Lemma concat_pts_ok g : bytes_ok (concat (map enc_pt g)).
 Proof.
@@ -598,7 +597,8 @@ Qed.
 
 Lemma concat_pts_length g : length (concat (map enc_pt g)) = (length g * pt_len)%nat.
 Proof.
-  induction g as [|p g IH]; simpl; [reflexivity|]. rewrite app_length, pt_length, IH. lia.
+  induction g as [|p g IH]; cbn [map concat length]; [reflexivity|].
+  rewrite app_length, pt_length, IH. unfold pt_len. lia.
 Qed.
 
 Lemma chunks_roundtrip g : forall pre k, length pre = (k * pt_len)%nat ->
@@ -610,8 +610,8 @@ Proof.
   rewrite <- Hk. rewrite skipn_app, skipn_all, Nat.sub_diag. cbn [skipn app].
   rewrite <- (pt_length p) at 1. rewrite firstn_app, firstn_all, Nat.sub_diag. cbn [firstn].
   rewrite app_nil_r, pt_roundtrip.
-  rewrite Hk. rewrite app_assoc. rewrite IH; [reflexivity|].
-  rewrite app_length, pt_length, Hk. simpl. lia.
+  rewrite app_assoc. rewrite IH; [reflexivity|].
+  rewrite app_length, pt_length, Hk. cbn [Nat.mul]. lia.
 Qed.
 
 Lemma unmarshal_gammas_roundtrip g :
@@ -630,9 +630,19 @@ Proof.
   apply unmarshal_gammas_roundtrip.
 Qed.
 
+End Gammas.
+
+Section Key.
+
+Variable key : Type.
+Variable enc_key : key -> bytes.
+Variable dec_key : bytes -> option key.
+Hypothesis key_roundtrip : forall k, dec_key (enc_key k) = Some k.
+Hypothesis key_bytes : forall k, bytes_ok (enc_key k).
+
 Lemma key_attr_roundtrip k : decode_key key dec_key (encode_key key enc_key k) = Some k.
 Proof.
   unfold decode_key, encode_key. rewrite b64_roundtrip by apply key_bytes. apply key_roundtrip.
 Qed.
 
-End Dependent.
+End Key.
